@@ -1,6 +1,7 @@
 package main
 
 import (
+	"strings"
 	"math/rand"
 	"sort"
 
@@ -1311,7 +1312,15 @@ func (g *generator) nextInner() Op {
 				if len(add) == 0 && len(rem) == 0 {
 					continue
 				}
-				return Op{Op: "BatchExchange", Api: "generic.Exchange.ExchangeBatch", F: f, Add: add, Rem: rem, Tgt: -1}
+				xop := Op{Op: "BatchExchange", Api: "generic.Exchange.ExchangeBatch", F: f, Add: add, Rem: rem, Tgt: -1}
+				if g.pct(40) {
+					for _, c := range common {
+						if contains(g.rels, c) && !contains(rem, c) {
+							xop.HasRel, xop.Rel = true, c // configured, but no target given: every entity keeps its target
+						}
+					}
+				}
+				return xop
 			}
 			if g.pct(40) {
 				op.Q = true
@@ -1329,6 +1338,20 @@ func (g *generator) nextInner() Op {
 					op.Tgt = g.target(false)
 				}
 				return op
+			}
+			if g.pct(7) && !g.locked() {
+				// children of a parent, then a generic batch exchange whose Exchange / Map is configured WITH the relation
+				// but is called without a target: every child keeps its parent (plain Batch.Exchange semantics)
+				p := len(g.x.issued)
+				extra := []int{5, 6, 7, 8}[g.rng.Intn(4)]
+				child := Op{Op: "BuilderNew", Api: "generic.Map.New", Ar: 3, HasRel: true, Rel: 2, HasTgt: true, Tgt: p}
+				f := &FSpec{K: "all", Ids: []int{2}, Tgt: -1}
+				last := Op{Op: "BatchExchange", Api: "generic.Exchange.ExchangeBatch", F: f, Add: []int{extra}, Rem: []int{}, HasRel: true, Rel: 2, Tgt: -1}
+				if g.pct(40) {
+					last = Op{Op: "BatchExchange", Api: "generic.Exchange.ExchangeBatch", F: f, Add: []int{}, Rem: []int{0}, HasRel: true, Rel: 2, Tgt: -1}
+				}
+				g.plan = []Op{child, child, last, {Op: "Panel", F: &FSpec{K: "rel", Subs: []*FSpec{{K: "all", Ids: []int{2}, Tgt: -1}}, Tgt: p}, Walk: g.walk()}}
+				return Op{Op: "NewEntity", Api: "World.NewEntity", Ids: []int{}}
 			}
 			if len(g.x.gfs) < 10 && g.pct(14) && !g.locked() {
 				// deck over (arity, builder method): a filter object is used once (which compiles it), then re-configured
@@ -1556,6 +1579,10 @@ func (g *generator) buildDeck() {
 		for _, api := range []string{"New", "NewWith", "NewBatch", "NewBatchQ", "Add", "Remove", "AddBatch", "AddBatchQ",
 			"RemoveBatch", "RemoveBatchQ"} {
 			deck = append(deck, deckCard{api, ar, false}, deckCard{api, ar, true})
+			if api != "New" && api != "NewWith" && api != "NewBatch" && api != "NewBatchQ" {
+				// a third variant: the Map is built WITH a relation type, but the call gets no target (plain semantics)
+				deck = append(deck, deckCard{api + "+rel", ar, false})
+			}
 		}
 		for _, api := range []string{"Assign", "RemoveEntities", "RemoveEntitiesQ", "Get"} {
 			deck = append(deck, deckCard{api, ar, false})
@@ -1571,10 +1598,20 @@ func (g *generator) playCard(alive []int) (Op, bool) {
 		g.buildDeck()
 	}
 	c := deck[deckPos]
+	relNoTarget := strings.HasSuffix(c.api, "+rel")
+	c.api = strings.TrimSuffix(c.api, "+rel")
 	ar := c.ar
 	// the Map of arity ar covers ids 0..ar-1; id 2 is a relation component
 	withRel := ar >= 3
 	setTarget := func(op *Op) {
+		if relNoTarget {
+			// relation 12 lies outside every Map's own components; entities may carry it with a target they must keep
+			op.HasRel, op.Rel = true, 12
+			if withRel && g.pct(50) {
+				op.Rel = 2
+			}
+			return
+		}
 		if !c.tgt {
 			return
 		}
@@ -1654,8 +1691,9 @@ func (g *generator) playCard(alive []int) (Op, bool) {
 				if c.tgt && contains(m, 12) {
 					op.HasRel, op.Rel, op.HasTgt = true, 12, true
 					op.Tgt = g.target(false)
-				} else if c.tgt {
+				} else if c.tgt || relNoTarget {
 					// target although the relation component goes away with the removal: must be rejected
+					// (or: relation configured, no target - plain removal)
 					setTarget(&op)
 				}
 				return op, true
